@@ -13,7 +13,7 @@ from sim.core import sub_rng
 
 PROP = "C18"
 LEVEL = "exploration"
-TIERS = {"quick": dict(runs=40000, chunk=500), "thorough": dict(budget_s=480, max_runs=10_000_000, chunk=2000)}
+TIERS = {"quick": dict(runs=20000, chunk=500), "thorough": dict(budget_s=480, max_runs=10_000_000, chunk=2000)}
 RULE = ("one case = 1-2 base signals (scalar or array of rank<=3, real/complex, with/without pre-allocated sensitivity) and "
         "up to 20 generated operations {slice, nested slice, set state, set sensitivity, add_sensitivity (fresh / same object "
         "to two signals / mutated by the caller afterwards), reset(keep_alloc), slice reset}; slices are described by "
@@ -21,7 +21,7 @@ RULE = ("one case = 1-2 base signals (scalar or array of rank<=3, real/complex, 
         "None-ness of the sensitivity before the op); non-trivial = at least one operation went through a slice or an aliasing probe ran")
 PROBES = ["nested_slice_write", "same_object_added_twice", "caller_mutation_after_add", "keep_alloc_inplace_zero",
           "slice_add_creates_base_sens", "index_array_slice", "tuple_slice", "slice_reset_partial", "scalar_signal",
-          "complex_data", "element_slice", "set_sens_none_on_slice"]
+          "complex_data", "element_slice", "set_sens_none_on_slice", "index_array_on_later_axis"]
 FAULT_KINDS = ["aliasing_probe_same_object", "aliasing_probe_caller_mutation"]
 COMPONENTS = {"real": ["pymoto.Signal", "pymoto.core_objects.SignalSlice"], "stub": []}
 ASSUMPTIONS = ["index arrays contain no repeated entries; nested slices are basic slices (as the property states)",
@@ -39,7 +39,7 @@ def setup():
 
 # ------------------------------------------------------------------------------------------------ generation
 def _slice_spec(rng):
-    t = str(rng.choice(["basic", "basic", "tuple", "idx", "int", "idx_sl"]))
+    t = str(rng.choice(["basic", "basic", "tuple", "idx", "int", "idx_sl", "sl_idx", "ell_idx", "int_idx", "sl_idx_sl"]))
     fr = [[float(rng.random()), float(rng.random()), int(rng.choice([1, 1, 2, -1]))] for _ in range(3)]
     return dict(t=t, fr=fr, pseed=int(rng.integers(1 << 30)), frac=float(rng.random()))
 
@@ -95,6 +95,19 @@ def realise_slice(spec, shape):
         return tuple(_basic_axis(spec["fr"][i], shape[i]) for i in range(k)), "tuple", True
     if t == "int":
         return int(spec["frac"] * shape[0]) % shape[0], "int", True
+    if t in ("sl_idx", "ell_idx", "int_idx", "sl_idx_sl") and nd >= 2:
+        # an integer array on a later axis, preceded by a slice / Ellipsis / integer (numpy builds such results in a temporary)
+        ax = nd - 1 if t in ("ell_idx", "int_idx") or nd == 2 else 1
+        perm = sub_rng(0x52, spec["pseed"]).permutation(shape[ax])
+        idx = np.array(perm[:max(1, int(np.ceil(spec["frac"] * shape[ax])))])
+        if t == "ell_idx":
+            return (Ellipsis, idx), "ell_idx", False
+        if t == "int_idx":
+            lead = tuple(int(spec["fr"][i][0] * shape[i]) % shape[i] for i in range(nd - 1))
+            return lead + (idx,), "int_idx", False
+        if t == "sl_idx_sl" and nd == 3:
+            return (_basic_axis(spec["fr"][0], shape[0]), idx, _basic_axis(spec["fr"][2], shape[2])), "sl_idx_sl", False
+        return (_basic_axis(spec["fr"][0], shape[0]), idx), "sl_idx", False
     perm = sub_rng(0x51, spec["pseed"]).permutation(shape[0])
     idx = perm[:max(1, int(np.ceil(spec["frac"] * shape[0])))]
     if t == "idx" or nd == 1:
@@ -234,6 +247,8 @@ def run(case):
                                  kinds=parent["kinds"] + [kind]))
                 if kind in ("idx", "idx_sl"):
                     probe("index_array_slice")
+                if kind in ("sl_idx", "ell_idx", "int_idx", "sl_idx_sl"):
+                    probe("index_array_on_later_axis")
                 if kind == "tuple":
                     probe("tuple_slice")
                 if kind == "int":
